@@ -125,6 +125,23 @@ WITNESSES = [
 
 
 def _check(scratch, cfg):
+    """one `cargo check` of the scratch copy with `--cfg <cfg>` on the feoxdb crate. Serialised with the fact extraction
+    (same lock: both drop the member's fingerprints in the shared target directory), and repeated until the driver confirms
+    on stderr that it really compiled the crate with that cfg (cargo may otherwise answer from its freshness cache)."""
+    import fcntl
+    last = None
+    for attempt in range(4):
+        with open(os.path.join(extract.CACHE, "extract.lock"), "w") as lock:
+            fcntl.flock(lock, fcntl.LOCK_EX)
+            last = _check_once(scratch, cfg)
+        rc, codes, err = last
+        if ("feoxlint-witness-cfg: %s " % cfg) in err or ("feoxlint-witness-cfg: %s\n" % cfg) in err:
+            return last
+    rc, codes, err = last
+    return 2, codes, "INCONCLUSIVE: the driver never reported compiling with --cfg %s\n%s" % (cfg, err[-800:])
+
+
+def _check_once(scratch, cfg):
     target = os.path.join(extract.CACHE, "target")
     import glob
     for prof in glob.glob(os.path.join(target, "*", ".fingerprint", "feoxdb-*")):
@@ -142,7 +159,7 @@ def _check(scratch, cfg):
     env.pop("FEOXLINT_OUT", None)
     r = subprocess.run(["cargo", "+nightly", "check", "--offline", "--lib", "--message-format=short"], cwd=scratch, env=env, capture_output=True, text=True)
     codes = sorted(set(re.findall(r"error\[(E\d{4})\]", r.stderr)))
-    return r.returncode, codes, r.stderr[-1500:]
+    return r.returncode, codes, r.stderr[-6000:]
 
 
 def run_all(repo=None):
@@ -177,6 +194,9 @@ def run_all(repo=None):
                 # the twin must compile; if it does not, the witness harness no longer fits the tree
                 status = "twin-does-not-compile"
                 detail = err_t[-600:]
+            elif rc_b == 2 and "INCONCLUSIVE" in err_b:
+                status = "inconclusive: witness build could not be observed"
+                detail = err_b[-400:]
             elif rc_b == 0:
                 status = "VIOLATED: the use-after-free shape type-checks"
                 detail = None
